@@ -12,6 +12,8 @@ def tok_params(draw, maxmax=8, init="any"):
     init: 'any' -> all six parameters; 'default' -> init_min in {-1,0,1},
     init_max_silence arbitrary (irrelevant there)."""
     mx = draw(st.integers(1, maxmax))
+    if maxmax >= 8 and draw(st.integers(0, 14)) == 0:
+        mx = draw(st.integers(250, 300))  # lengths above CPython's small-int cache
     mn = draw(st.integers(1, mx))
     sil = draw(st.integers(-1, mx - 1))
     if init == "default":
@@ -36,8 +38,8 @@ def pattern(draw, p, maxlen=64):
     ms = max(sil, 0)
     how = draw(st.integers(0, 9))
     if how <= 6:
-        vruns = _clip([1, 2, mn - 1, mn, mn + 1, mx - 1, mx, mx + 1, 2 * mx, 2 * mx + 1, imin, imin - 1])
-        iruns = _clip([1, 2, ms, ms + 1, ms + 2, max(isil, 0), max(isil, 0) + 1, mx, mx + ms + 1])
+        vruns = _clip([1, 2, mn - 1, mn, mn + 1, mx - 1, mx, mx + 1, 2 * mx, 2 * mx + 1, imin, imin - 1], hi=max(400, 2 * mx + 2))
+        iruns = _clip([1, 2, ms, ms + 1, ms + 2, max(isil, 0), max(isil, 0) + 1, mx, mx + ms + 1], hi=max(400, 2 * mx + 2))
         nruns = draw(st.integers(1, 10))
         valid = draw(st.booleans())
         parts = []
@@ -67,7 +69,7 @@ def pattern(draw, p, maxlen=64):
 @st.composite
 def tok_case(draw, maxmax=8, maxlen=64, init="any", kinds=("obj", "char", "bytes", "np", "int"), delivs=("list", "gen", "cb")):
     p = draw(tok_params(maxmax, init))
-    pat = draw(pattern(p, maxlen))
+    pat = draw(pattern(p, maxlen if p[1] <= 64 else max(maxlen, 3 * p[1] + 20)))
     case = {
         "pat": pat,
         "p": p,
@@ -77,7 +79,9 @@ def tok_case(draw, maxmax=8, maxlen=64, init="any", kinds=("obj", "char", "bytes
     if draw(st.integers(0, 3)) == 0:  # the tokenizer has been used before
         case["pre"] = {
             "pat": draw(pattern(p, 24)),
-            "how": draw(st.one_of(st.just("list"), st.tuples(st.just("gen"), st.integers(0, 2)).map(list))),
+            "how": draw(st.one_of(st.just("list"), st.tuples(st.just("gen"), st.integers(0, 2)).map(list),
+                                  st.just(["two_gens"]),
+                                  st.tuples(st.just("close_mid"), st.integers(0, 2), st.integers(0, 2)).map(list))),
         }
     return case
 
